@@ -104,12 +104,59 @@ def run_C15(case):
 
             same_bytes("after construction")
             mmap_clause("after construction")
+            spans = {s_["at"]: s_ for s_ in case.get("spanning_reads", [])}
+
+            def start_span(sut, sp):
+                tr = sut.traph
+                k = sp["kind"]
+                if k == "pages_iter":
+                    g = (lru for node, lru in tr.pages_iter())
+                elif k == "prefix_iter":
+                    g = ((lru, node.webentity()) for node, lru in tr.webentity_prefix_iter())
+                elif k == "links_iter":
+                    g = tr.links_iter(out=sp.get("out", True))
+                else:
+                    g = (lru for node, lru in tr.lru_trie.dfs_iter())
+                out_ = []
+                try:
+                    for _ in range(sp["pre"]):
+                        out_.append(next(g))
+                except StopIteration:
+                    g = None
+                except Exception as e:
+                    out_.append(("raised", type(e).__name__))
+                    g = None
+                return g, out_
+
+            def finish_span(g, out_):
+                if g is None:
+                    return out_
+                try:
+                    for x_ in g:
+                        out_.append(x_)
+                        if len(out_) > 5000:
+                            break
+                except Exception as e:
+                    out_.append(("raised", type(e).__name__))
+                return out_
+
             for i, op in enumerate(case["ops"]):
                 refs = O.resolve_refs(op, model)
                 if refs is None:
                     continue
+                sp = spans.get(i)
+                if sp is not None:
+                    # a read iterator is partly consumed, the request runs, the iterator is drained
+                    ga, outa = start_span(A, sp)
+                    gb, outb = start_span(B, sp)
                 oa = run_op(A, op, refs, model)
                 ob = run_op(B, op, refs, model)
+                if sp is not None:
+                    ra, rb = finish_span(ga, outa), finish_span(gb, outb)
+                    res.evals["C15.spanning_read"] += 1
+                    res.stats["spanning_reads"] += 1
+                    if ra != rb:
+                        raise Fail("C15.spanning_read", "a %s iterator advanced %d items, then op #%d %s, then drained: memory back-end yields %s, file back-end %s" % (sp["kind"], sp["pre"], i, op["op"], short(ra), short(rb)))
                 res.stats["ops"] += 1
                 res.evals["C15.same_outcome"] += 1
                 h.update(repr((i, op["op"], oa, ob)).encode())
@@ -169,6 +216,11 @@ def gen_C15(rng, tier, seed):
         c["config"]["used_folder"] = [O.enc(g.lru()) for _ in range(rng.randint(1, 4))]
     c["config"]["backend"] = "real" if rng.random() < 0.2 else "sim"
     c["config"]["sweep_every"] = rng.choice([1, 2, 4, 8])
+    sr = []
+    for i, o in enumerate(c["ops"]):
+        if (o["op"] == "clear" and rng.random() < 0.7) or rng.random() < 0.05:
+            sr.append({"at": i, "kind": rng.choice(["pages_iter", "prefix_iter", "links_iter", "dfs_iter"]), "pre": rng.choice([1, 1, 2, 3]), "out": rng.random() < 0.5})
+    c["spanning_reads"] = sr
     return c
 
 
@@ -187,6 +239,9 @@ class Track(object):
             self.tmp = tempfile.mkdtemp(prefix="traphverif-")
             folder = self.tmp + "/idx"
         self.sut = O.Sut(backend, self.default, self.rules, folder=folder)
+        if backend == "mem":
+            # same configuration as a fresh on-disk index
+            pass
         self.records = []
 
     def close(self):
@@ -322,14 +377,15 @@ def run_C11(case):
             # ---- clear at seeded positions vs a fresh index ------------------
             for cl in case.get("clears", []):
                 pos = min(cl["pos"], n)
+                cbackend = "mem" if cl.get("mem") else backend
                 cdef = cl.get("default") or cfg.get("default", "domain")
                 crules = cl["rules"]
                 fcfg = dict(cfg)
                 fcfg["default"] = cdef
                 fcfg["rules"] = crules
-                fresh = Track(fcfg, backend)
+                fresh = Track(fcfg, cbackend)
                 tracks.append(fresh)
-                v = Track(cfg, backend)
+                v = Track(cfg, cbackend)
                 tracks.append(v)
                 for i in range(pos):
                     v.apply(ops[i])
@@ -381,6 +437,6 @@ def gen_C11(rng, tier, seed):
             a = g.anchor()
             if a is not None and a not in [O.dec(x) for x, _ in rules]:
                 rules.append([O.enc(a), rng.choice(["domain", "path1", "path2", "subdomain"])])
-        clears.append({"pos": rng.randint(0, n), "default": rng.choice([None, "domain", "path1", "never"]), "rules": rules})
+        clears.append({"pos": rng.randint(0, n), "default": rng.choice([None, "domain", "path1", "never"]), "rules": rules, "mem": rng.random() < 0.3})
     c["clears"] = clears
     return c
